@@ -17,7 +17,7 @@
 (* and require CallFails = {}, the trace specification takes r from the    *)
 (* recorded execution and logs CallFails.                                  *)
 (***************************************************************************)
-EXTENDS ContractsElem, TLC
+EXTENDS ContractsText, TLC
 
 VARIABLES regs, memo
 
@@ -33,6 +33,7 @@ FlatArg(a) ==
     [] a.t = "f" \/ a.t = "f32" -> <<a.w>>
     [] a.t = "i" -> <<UStr(a.ty), UInt(a.neg, a.mag)>>
     [] a.t = "s" -> <<UStr(a.v)>>
+    [] a.t = "sl" -> [i \in 1..Len(a.v) |-> UStr(a.v[i])]
     [] a.t = "fl" -> a.v
     [] a.t = "tl" -> FoldLeft(LAMBDA acc, x : acc \o <<x.hi, x.lo>>, <<>>, a.v)
 FlatArgs(A) == FoldLeft(LAMBDA acc, a : acc \o FlatArg(a), <<>>, A)
@@ -46,7 +47,7 @@ ResKey(r) ==
     [] r.t = "b" -> <<[k |-> "b", neg |-> r.v, mag |-> <<>>, e |-> 0]>>
     [] r.t = "ord" -> <<[k |-> "o", neg |-> FALSE, mag |-> <<>>, e |-> r.v]>>
     [] r.t = "i" -> <<UInt(r.neg, r.mag)>>
-    [] r.t = "str" \/ r.t = "fmt" -> [i \in 1..Len(r.c) |-> UStr(r.c[i])]
+    [] r.t = "str" \/ r.t = "fmt" \/ r.t = "ser" -> [i \in 1..Len(r.c) |-> UStr(r.c[i])]
     [] OTHER -> <<UStr(r.t)>>
 
 TFArg(x) == [t |-> "tf", x |-> x]
@@ -128,6 +129,8 @@ FamilyFails(fam, op, A, r) ==
     [] fam = "load" \/ fam = "base" -> BaseFails(op, A, r)
     [] fam = "conv" -> ConvFails(op, A, r)
     [] fam = "misc" \/ fam = "pow" \/ fam = "const" \/ fam = "elem" -> ElemFails(fam, op, A, r)
+    [] fam = "text" -> TextFails(op, A, r)
+    [] fam = "serde" -> SerdeFails(op, A, r)
     [] fam = "ieee" -> IeeeFails(op, A)
     [] OTHER -> {<<"tool", "unknown_family">>}
 
